@@ -101,9 +101,11 @@ def _is_multiline_import_start(line: str) -> bool:
         line: Normalized code line
 
     Returns:
-        True if line starts a multi-line import (has opening paren but no closing)
+        True if line starts a multi-line import (an opening paren or brace that is not closed on the line)
     """
-    return _is_import_statement(line) and "(" in line and ")" not in line
+    if not _is_import_statement(line):
+        return False
+    return ("(" in line and ")" not in line) or ("{" in line and "}" not in line)
 
 
 def _handle_multiline_import_continuation(line: str) -> tuple[bool, bool]:
@@ -115,7 +117,7 @@ def _handle_multiline_import_continuation(line: str) -> tuple[bool, bool]:
     Returns:
         Tuple of (still_in_import, should_skip)
     """
-    closes_import = ")" in line
+    closes_import = ")" in line or "}" in line  # from x import (...) / import { ... } from "y"
     return not closes_import, True
 
 
